@@ -2,6 +2,7 @@
 // their constexpr operators, and select with a constant mask versus the run-time form.
 // Every pack is a type: the families below are fixed at build time.
 #include "../common/vcheck.hpp"
+#include "../common/accept.hpp"
 using namespace vh;
 
 constexpr uint64_t cmix(uint64_t z)
@@ -268,9 +269,128 @@ static void per_lane_value(std::integer_sequence<unsigned, Ks...>)
     (value_const<T, GValOneHot<Ks>>("one_hot_value"), ...);
 }
 
+// ---------------------------------------------------------------- constant-parameter APIs, compact subset
+// (the full mask families live in the data-movement unit, which the thorough tier of C19 also runs)
+struct GRev19
+{
+    static constexpr size_t get(size_t i, size_t n) { return n - 1 - i; }
+};
+template <unsigned S>
+struct GIdx19
+{
+    static constexpr size_t get(size_t i, size_t n) { return cmix(S * 1000003ull + i * 7919ull + 9) % n; }
+};
+template <unsigned S>
+struct GShuf19
+{
+    static constexpr size_t get(size_t i, size_t n) { return cmix(S * 1000003ull + i * 7919ull + 13) % (2 * n); }
+};
+template <class T, class G>
+static void swizzle_const_runtime(Rng& rng, const char* gname)
+{
+    using B = xs::batch<T, ARCH>;
+    using IT = xs::as_unsigned_integer_t<T>;
+    using M = decltype(xs::make_batch_constant<IT, G, ARCH>());
+    constexpr size_t N = B::size;
+    static OpStat& st = reg("C19", "swizzle_const_vs_runtime", tname<T>());
+    if constexpr (has_cswz<T, ARCH, M>::value && has_dswz<T, ARCH>::value)
+    {
+        if (!st.on)
+            return;
+        alignas(64) T a[N], o1[N], o2[N];
+        for (int rep = 0; rep < 3; ++rep)
+        {
+            for (size_t i = 0; i < N; ++i)
+                a[i] = frombits<T>((bits_t<T>)((rng.next() << 8) | i));
+            mark_case("swizzle_const_vs_runtime", tname<T>(), a, sizeof a);
+            xs::swizzle(B::load_aligned(a), M {}).store_aligned(o1);
+            xs::swizzle(B::load_aligned(a), xs::batch<IT, ARCH>(M {})).store_aligned(o2);
+            st.evals += N;
+            st.cell((unsigned)(strhash(gname) & 0xffff));
+            bool bad = memcmp(o1, o2, sizeof o1) != 0;
+            for (size_t i = 0; i < N && !bad; ++i)
+                if (!same_bits(a[G::get(i, N)], o1[i]))
+                    bad = true;
+            if (bad)
+                viol(st, "unclassified", "{\"family\":\"" + std::string(gname) + "\",\"src\":" + hexarr(a, N) + ",\"constant_form\":" + hexarr(o1, N) + ",\"runtime_form\":" + hexarr(o2, N) + "}");
+        }
+    }
+}
+template <class T, class G>
+static void shuffle_const(Rng& rng, const char* gname)
+{
+    using B = xs::batch<T, ARCH>;
+    using IT = xs::as_unsigned_integer_t<T>;
+    using M = decltype(xs::make_batch_constant<IT, G, ARCH>());
+    constexpr size_t N = B::size;
+    static OpStat& st = reg("C19", "shuffle_constant_mask", tname<T>());
+    // only the element widths every architecture accepts for a general two-source mask (32/64-bit)
+    if constexpr (sizeof(T) >= 4)
+    {
+        if (!st.on)
+            return;
+        alignas(64) T a[N], b[N], o[N];
+        for (size_t i = 0; i < N; ++i)
+        {
+            a[i] = frombits<T>((bits_t<T>)((rng.next() << 8) | i));
+            b[i] = frombits<T>((bits_t<T>)((rng.next() << 8) | 0x80 | i));
+        }
+        mark_case("shuffle_constant_mask", tname<T>(), a, sizeof a);
+        xs::shuffle(B::load_aligned(a), B::load_aligned(b), M {}).store_aligned(o);
+        st.evals += N;
+        st.cell((unsigned)(strhash(gname) & 0xffff));
+        for (size_t i = 0; i < N; ++i)
+        {
+            size_t k = G::get(i, N);
+            if (!same_bits(k < N ? a[k] : b[k - N], o[i]))
+            {
+                viol(st, "unclassified", "{\"family\":\"" + std::string(gname) + "\",\"lane\":" + std::to_string(i) + ",\"x\":" + hexarr(a, N) + ",\"y\":" + hexarr(b, N) + ",\"got\":" + hexarr(o, N) + "}");
+                break;
+            }
+        }
+    }
+}
+template <class T>
+static void insert_const(Rng& rng)
+{
+    using B = xs::batch<T, ARCH>;
+    constexpr size_t N = B::size;
+    static OpStat& st = reg("C19", "insert_constant_index", tname<T>());
+    if (!st.on)
+        return;
+    alignas(64) T a[N], o[N];
+    for (size_t i = 0; i < N; ++i)
+        a[i] = frombits<T>((bits_t<T>)((rng.next() << 8) | i));
+    T v = frombits<T>((bits_t<T>)rng.next());
+    B va = B::load_aligned(a);
+    auto chk = [&](size_t k, B r)
+    {
+        r.store_aligned(o);
+        st.evals += N;
+        st.cell((unsigned)k);
+        for (size_t i = 0; i < N; ++i)
+            if (!same_bits(i == k ? v : a[i], o[i]))
+            {
+                viol(st, "unclassified", "{\"I\":" + std::to_string(k) + ",\"lane\":" + std::to_string(i) + ",\"src\":" + hexarr(a, N) + ",\"got\":" + hexarr(o, N) + "}");
+                break;
+            }
+    };
+    mark_case("insert_constant_index", tname<T>(), a, sizeof a);
+    chk(0, xs::insert(va, v, xs::index<0>()));
+    chk(N / 2, xs::insert(va, v, xs::index<N / 2>()));
+    chk(N - 1, xs::insert(va, v, xs::index<N - 1>()));
+    chk(1 % N, xs::insert(va, v, xs::index<1 % N>()));
+}
+
 template <class T>
 static void all_types(Rng& rng)
 {
+    swizzle_const_runtime<T, GRev19>(rng, "reverse");
+    swizzle_const_runtime<T, GIdx19<1>>(rng, "random1");
+    swizzle_const_runtime<T, GIdx19<2>>(rng, "random2");
+    shuffle_const<T, GShuf19<1>>(rng, "random1");
+    shuffle_const<T, GShuf19<2>>(rng, "random2");
+    insert_const<T>(rng);
     using B = xs::batch<T, ARCH>;
     constexpr unsigned N = (unsigned)B::size;
     if constexpr (std::is_integral<T>::value)
